@@ -953,29 +953,41 @@ Proof.
   - apply Forall_forall. intros t Ht. apply filter_In in Ht as [Ht _]. rewrite Forall_forall in H. now apply H.
 Qed.
 
+(* the token streams of all fragments are fine: nothing but DecoderError is raised by the (modernising)
+   tokenizer and int() accepts the digit fields of every token *)
+Definition frags_ok (s : str) (compat : bool) : Prop := Forall frag_ok (tokenize_all s compat).
+
 (* C01 (graph level): whatever the decoder derives, the graph is well formed and
    no atom's bond count exceeds its capacity under the table in force *)
-Theorem decode_graph_wf : forall s attribute m, digits_ok s ->
-  decode_graph T s false attribute = Ok m -> MolWF m.
+Theorem decode_graph_wf_c : forall s compat attribute m, frags_ok s compat ->
+  decode_graph T s compat attribute = Ok m -> MolWF m.
 Proof.
-  intros s attribute m Hd E. unfold decode_graph, decode_graph_c in E.
-  pose proof (derive_frags_good attribute (tokenize_all s false) empty_mol [] 0%nat wf_empty (Forall_nil _) (tokenize_all_ok s Hd)) as G.
+  intros s compat attribute m Hd E. unfold decode_graph, decode_graph_c in E.
+  pose proof (derive_frags_good attribute (tokenize_all s compat) empty_mol [] 0%nat wf_empty (Forall_nil _) Hd) as G.
   unfold derive_frags in G.
-  destruct (derive_frags_c (get_bonding_capacity T) attribute (tokenize_all s false) empty_mol [] 0) as [[m1 rings]|e]; cbn [bind] in E; [|discriminate].
+  destruct (derive_frags_c (get_bonding_capacity T) attribute (tokenize_all s compat) empty_mol [] 0) as [[m1 rings]|e]; cbn [bind] in E; [|discriminate].
   destruct G as [Hm1 Hr1]. destruct (form_rings_good rings m1 Hm1 Hr1) as (m' & E' & Hm' & _). rewrite E' in E. now inversion E; subst.
 Qed.
 
 (* C08: the decoder returns or raises DecoderError *)
-Theorem decoder_total : forall s attribute, digits_ok s ->
-  (exists out, decoder T s false attribute = Ok out) \/ decoder T s false attribute = Err DecoderError.
+Theorem decoder_total_c : forall s compat attribute, frags_ok s compat ->
+  (exists out, decoder T s compat attribute = Ok out) \/ decoder T s compat attribute = Err DecoderError.
 Proof.
-  intros s attribute Hd. unfold decoder, decoder_c, decode_graph_c.
-  pose proof (derive_frags_good attribute (tokenize_all s false) empty_mol [] 0%nat wf_empty (Forall_nil _) (tokenize_all_ok s Hd)) as G.
+  intros s compat attribute Hd. unfold decoder, decoder_c, decode_graph_c.
+  pose proof (derive_frags_good attribute (tokenize_all s compat) empty_mol [] 0%nat wf_empty (Forall_nil _) Hd) as G.
   unfold derive_frags in G.
-  destruct (derive_frags_c (get_bonding_capacity T) attribute (tokenize_all s false) empty_mol [] 0) as [[m1 rings]|e]; cbn [bind].
+  destruct (derive_frags_c (get_bonding_capacity T) attribute (tokenize_all s compat) empty_mol [] 0) as [[m1 rings]|e]; cbn [bind].
   - destruct G as [Hm1 Hr1]. destruct (form_rings_good rings m1 Hm1 Hr1) as (m' & E' & Hm' & _). rewrite E'. cbn [bind].
-    destruct (mol_to_smiles_ok m' Hm') as [x ->]. left. eauto.
+    left. apply (mol_to_smiles_ok m' Hm').
   - right. now rewrite G.
 Qed.
+
+Theorem decode_graph_wf : forall s attribute m, digits_ok s ->
+  decode_graph T s false attribute = Ok m -> MolWF m.
+Proof. intros s attribute m Hd. apply decode_graph_wf_c. now apply tokenize_all_ok. Qed.
+
+Theorem decoder_total : forall s attribute, digits_ok s ->
+  (exists out, decoder T s false attribute = Ok out) \/ decoder T s false attribute = Err DecoderError.
+Proof. intros s attribute Hd. apply decoder_total_c. now apply tokenize_all_ok. Qed.
 End Whole.
 End Inv.
